@@ -569,8 +569,9 @@ def do_replay(binp, prop, tier, engine, path, tmp):
             print(v["msg"][:2000])
             ev = r.get("events") or []
             if ev:
-                print("--- trace (last %d events)" % min(len(ev), 60))
-                print("\n".join(ev[-60:]))
+                ntr = int(os.environ.get("VERIF_TRACE_N", "60"))
+                print("--- trace (last %d events)" % min(len(ev), ntr))
+                print("\n".join(ev[-ntr:]))
             print("VIOLATION property=%s replay=%s" % (prop, path))
             return 1
     print("replay did not reproduce a violation of %s (classes seen: %s)" % (prop, [v["class"] for v in r.get("violations") or []]))
